@@ -2,7 +2,7 @@
   Lemmas/RBCheck.lean — the executable invariant check the driver evaluates on every state (`Tree.validB`) decides the
   predicate the theorems are about (`Valid`); and the comparison used by the op files (`Key.cmp`) is lawful.
 -/
-import CelloProofs.Lemmas.RBValid
+import CelloProofs.Lemmas.RBStore
 
 namespace Cello.RB
 open Std
@@ -76,14 +76,19 @@ theorem descending_iff [TransCmp cmp] (l : List (α × β)) : descending cmp l =
       · rintro ⟨h1, h2, h3⟩
         exact ⟨h1 b (by simp), h2, h3⟩
 
-/-- the `ok=` flag of the driver is exactly `Valid` -/
-theorem validB_iff [TransCmp cmp] (m : Tree α β) : m.validB cmp = true ↔ Valid cmp m := by
-  simp only [Tree.validB, Bool.and_eq_true, decide_eq_true_eq, noRedRed_iff, bhOf_isSome_iff, descending_iff]
-  constructor
-  · rintro ⟨⟨⟨⟨h1, h2⟩, h3⟩, h4⟩, h5⟩; exact ⟨⟨h1, h2, h3⟩, h4, h5⟩
-  · rintro ⟨⟨h1, h2, h3⟩, h4, h5⟩; exact ⟨⟨⟨⟨h1, h2⟩, h3⟩, h4⟩, h5⟩
+theorem sizedB_iff [Packed α] [Packed β] (sz : Nat × Nat) (l : List (α × β)) :
+    sizedB sz l = true ↔ ∀ e ∈ l, Fits sz e := by
+  simp [sizedB, Fits]
 
-/-! ### `Key.cmp` (Int_Cmp on Ints, strcmp on ASCII Strings) is a lawful comparison -/
+/-- the `ok=` flag of the driver is exactly `Valid` -/
+theorem validB_iff [Packed α] [Packed β] [TransCmp cmp] (m : Tree α β) : m.validB cmp = true ↔ Valid cmp m := by
+  simp only [Tree.validB, Bool.and_eq_true, decide_eq_true_eq, noRedRed_iff, bhOf_isSome_iff, descending_iff,
+    sizedB_iff]
+  constructor
+  · rintro ⟨⟨⟨⟨⟨h1, h2⟩, h3⟩, h4⟩, h5⟩, h6⟩; exact ⟨⟨h1, h2, h3⟩, h4, h5, h6⟩
+  · rintro ⟨⟨h1, h2, h3⟩, h4, h5, h6⟩; exact ⟨⟨⟨⟨⟨h1, h2⟩, h3⟩, h4⟩, h5⟩, h6⟩
+
+/-! ### `Key.cmp` (Int_Cmp on Ints, strcmp on ASCII Strings, field by field on plain structs) is a lawful comparison -/
 
 instance : OrientedCmp Key.cmp where
   eq_swap := by
@@ -91,6 +96,7 @@ instance : OrientedCmp Key.cmp where
     cases a <;> cases b <;> simp only [Key.cmp, Ordering.swap]
     · exact OrientedCmp.eq_swap (cmp := (compare : Int → Int → Ordering))
     · exact OrientedCmp.eq_swap (cmp := (compare : String → String → Ordering))
+    · exact OrientedCmp.eq_swap (cmp := (compare : List Int → List Int → Ordering))
 
 instance : TransCmp Key.cmp where
   isLE_trans := by
@@ -99,6 +105,7 @@ instance : TransCmp Key.cmp where
       first
         | exact TransCmp.isLE_trans (cmp := (compare : Int → Int → Ordering)) h1 h2
         | exact TransCmp.isLE_trans (cmp := (compare : String → String → Ordering)) h1 h2
+        | exact TransCmp.isLE_trans (cmp := (compare : List Int → List Int → Ordering)) h1 h2
         | rfl
         | exact absurd h1 (by decide)
         | exact absurd h2 (by decide)
@@ -106,10 +113,57 @@ instance : TransCmp Key.cmp where
 instance : LawfulEqCmp Key.cmp where
   eq_of_compare := by
     intro a b h
-    cases a <;> cases b <;> simp only [Key.cmp] at h
+    cases a <;> cases b <;> simp only [Key.cmp] at h <;> try (cases h; done)
     · rw [LawfulEqCmp.eq_of_compare (cmp := (compare : Int → Int → Ordering)) h]
-    · cases h
-    · cases h
     · rw [LawfulEqCmp.eq_of_compare (cmp := (compare : String → String → Ordering)) h]
+    · have := LawfulEqCmp.eq_of_compare (cmp := (compare : List Int → List Int → Ordering)) h
+      simp only [List.cons.injEq] at this
+      obtain ⟨rfl, rfl, rfl⟩ := this
+      rfl
+
+/-! ### the bytes of the op files' keys and values read back as the key / value -/
+
+theorem intsOf_map (l : List Int) : intsOf (l.map Word.int) = some l := by
+  induction l with
+  | nil => rfl
+  | cons a l ih => simp [intsOf, ih]
+
+instance : LawfulPacked Key where
+  ofWords_words := by
+    intro x
+    cases x with
+    | i n => rfl
+    | s x => rfl
+    | w a b r => simp [Packed.words, Packed.ofWords, intsOf_map]
+
+instance : LawfulPacked Val where
+  ofWords_words := by
+    intro x
+    exact intsOf_map x
+
+/-! ### well-typedness of a concrete history can be computed -/
+
+/-- executable form of `WellTyped` for the op files' types -/
+def wellTypedB : Store (Nat × Nat) → List (Op Key Val) → Bool
+  | _, [] => true
+  | env, op :: ops =>
+    (match op with
+     | .new _ ks vs init => sizedB (ks, vs) init
+     | .set t k v => match env.get? t with | none => true | some z => sizedB z [(k, v)]
+     | _ => true) && wellTypedB (tyStep env op) ops
+
+theorem wellTypedB_sound (env : Store (Nat × Nat)) (ops : List (Op Key Val)) (h : wellTypedB env ops = true) :
+    WellTyped env ops := by
+  induction ops generalizing env with
+  | nil => trivial
+  | cons op ops ih =>
+    simp only [wellTypedB, Bool.and_eq_true] at h
+    refine ⟨?_, ih _ h.2⟩
+    cases op <;> simp only [Op.typed] <;> try trivial
+    · exact (sizedB_iff _ _).mp h.1
+    · intro z hz
+      have h1 := h.1
+      simp only [hz] at h1
+      exact (sizedB_iff _ _).mp h1 _ (by simp)
 
 end Cello.RB
